@@ -13,9 +13,11 @@
 //! repeated evaluations of ONE `Program` (inputs other than `def` re-evaluate the same prepared
 //! main term `let defs in T` ... see `run_program_mode`).
 use nickel_lang_core::{
+    cache::{CacheHub, InputFormat, SourcePath},
     error::NullReporter,
     eval::cache::CacheImpl,
     eval::value::{Container, NickelValue, ValueContentRef},
+    eval::{VirtualMachine, VmContext},
     program::Program,
     repl::{EvalResult, Repl, ReplImpl},
     term::Term,
@@ -125,6 +127,7 @@ fn nickel(t: &Sx) -> String {
         }
         "proj" => format!("({}).{}", a(1), atom(&items[2])),
         "fail" => "(std.fail_with \"boom\")".into(),
+        "imp" => format!("(import \"{}.ncl\")", atom(&items[1])),
         h => panic!("unknown term head {h}"),
     }
 }
@@ -189,16 +192,21 @@ enum Mode {
 struct Oracle {
     cache: HashMap<(Mode, String, String), String>,
     pub fresh_programs: usize,
+    /// directory added to the import path of the fresh programs (context mode), and a digest of
+    /// its files (part of the cache key)
+    import_dir: Option<(std::path::PathBuf, String)>,
 }
 
 impl Oracle {
     /// Evaluate `src` as a fresh stand-alone program.
     fn eval(&mut self, mode: Mode, src: &str, field: &str) -> String {
-        let key = (mode, src.to_owned(), field.to_owned());
+        let files = self.import_dir.as_ref().map(|d| d.1.clone()).unwrap_or_default();
+        let key = (mode, src.to_owned(), format!("{field}\u{0}{files}"));
         if let Some(r) = self.cache.get(&key) {
             return r.clone();
         }
         self.fresh_programs += 1;
+        let import_dir = self.import_dir.as_ref().map(|d| d.0.clone());
         let r = guarded(|| {
             let mut prog: Program<CacheImpl> = match Program::new_from_source(
                 Cursor::new(src.to_owned()),
@@ -209,6 +217,9 @@ impl Oracle {
                 Ok(p) => p,
                 Err(e) => return format!("ERR IO {e}"),
             };
+            if let Some(d) = &import_dir {
+                prog.add_import_paths(std::iter::once(d.clone()));
+            }
             if mode == Mode::Query && !field.is_empty() {
                 match prog.parse_field_path(field.to_owned()) {
                     Ok(p) => prog.field = p,
@@ -410,16 +421,86 @@ fn run_program_history(line: &str, oracle: &mut Oracle) -> String {
     format!("{} || {}", sess.join(" | "), orac.join(" | "))
 }
 
+
+// ------------------------------------------------------------------ Context mode
+
+/// One `VmContext` re-used for several stand-alone sources, the way `nickel::Context::with_vm`
+/// (nickel/src/lib.rs) does: add the source, `prepare_eval`, spin a fresh `VirtualMachine`,
+/// evaluate, drop the VM.  Inputs: `(file NAME T)` writes NAME.ncl into a scratch directory on the
+/// import path (terms import it with `(imp NAME)`); `(eval K T)` / `(full K T)` evaluate T.
+/// What is shared between the evaluations: the import resolver's term cache, i.e. the thunks of
+/// the imported files.  Oracle: a fresh `Program` per evaluation with the same import path.
+fn run_context_history(line: &str, oracle: &mut Oracle, scratch: &std::path::Path, serial: &mut usize) -> String {
+    let inputs = parse_line(line);
+    *serial += 1;
+    let dir = scratch.join(format!("ctx{}", *serial));
+    std::fs::create_dir_all(&dir).unwrap();
+    let mut ctxt: VmContext<CacheHub, CacheImpl> = VmContext::new(CacheHub::new(), std::io::sink(), NullReporter {});
+    ctxt.import_resolver.sources.add_import_paths(std::iter::once(dir.clone()));
+    let mut digest = String::new();
+    let mut sess: Vec<String> = Vec::new();
+    let mut orac: Vec<String> = Vec::new();
+    for inp in &inputs {
+        let Sx::List(items) = inp else { panic!("input") };
+        match atom(&items[0]) {
+            "file" => {
+                let name = atom(&items[1]);
+                let text = nickel(&items[2]);
+                std::fs::write(dir.join(format!("{name}.ncl")), &text).unwrap();
+                digest.push_str(&format!("{name}={text};"));
+                sess.push("bound".into());
+                orac.push("-".into());
+            }
+            head @ ("eval" | "full") => {
+                let full = head == "full";
+                let k = budget(&items[1]);
+                let src = nickel(&items[2]);
+                let r = guarded(|| {
+                    let file_id = match ctxt.import_resolver.sources.add_source(
+                        SourcePath::Path("<ctx>".into(), InputFormat::Nickel),
+                        Cursor::new(src.clone()),
+                    ) {
+                        Ok(id) => id,
+                        Err(e) => return format!("ERR IO {e}"),
+                    };
+                    let value = match ctxt.prepare_eval(file_id) {
+                        Ok(v) => v,
+                        Err(e) => return err_line(&e),
+                    };
+                    verif_hooks::set_fuel(k);
+                    let mut vm = VirtualMachine::new(&mut ctxt);
+                    let res = if full { vm.eval_full(value) } else { vm.eval(value) };
+                    drop(vm);
+                    verif_hooks::set_fuel(u64::MAX);
+                    match res {
+                        Ok(v) => format!("OK {}", if full { show_full(&v) } else { show_whnf(&v) }),
+                        Err(e) => err_line(&nickel_lang_core::error::Error::from(e)),
+                    }
+                });
+                sess.push(r);
+                oracle.import_dir = Some((dir.clone(), digest.clone()));
+                orac.push(oracle.eval(if full { Mode::Full } else { Mode::Whnf }, &src, ""));
+                oracle.import_dir = None;
+            }
+            h => panic!("unknown input {h}"),
+        }
+    }
+    let _ = std::fs::remove_dir_all(&dir);
+    format!("{} || {}", sess.join(" | "), orac.join(" | "))
+}
+
 fn main() {
     if std::env::var("C12_PANIC_MSG").is_err() { std::panic::set_hook(Box::new(|_| {})); }
-    let program_mode = std::env::args().nth(1).as_deref() == Some("program");
+    let mode_arg = std::env::args().nth(1).unwrap_or_default();
+    let program_mode = mode_arg == "program";
+    let context_mode = mode_arg == "context";
     let worker = std::thread::Builder::new()
         .stack_size(1 << 30)
         .spawn(move || {
             let scratch = std::env::temp_dir().join(format!("verif-c12-{}", std::process::id()));
             std::fs::create_dir_all(&scratch).unwrap();
             let mut serial = 0usize;
-            let mut oracle = Oracle { cache: HashMap::new(), fresh_programs: 0 };
+            let mut oracle = Oracle { cache: HashMap::new(), fresh_programs: 0, import_dir: None };
             let stdin = std::io::stdin();
             let stdout = std::io::stdout();
             let mut w = std::io::BufWriter::new(stdout.lock());
@@ -428,6 +509,8 @@ fn main() {
                 let out = match catch_unwind(AssertUnwindSafe(|| {
                     if program_mode {
                         run_program_history(&line, &mut oracle)
+                    } else if context_mode {
+                        run_context_history(&line, &mut oracle, &scratch, &mut serial)
                     } else {
                         run_repl_history(&line, &mut oracle, &scratch, &mut serial)
                     }
